@@ -32,3 +32,31 @@ func HCodecRoundTrip() {
 		vr.Assert("c03.equal."+VKindName(int(m.Payloads[i].Type())), VEqPayload(m.Payloads[i], d.Payloads[i]))
 	}
 }
+
+// HBigCodec (C03): the upper end of the domain - one payload of kind Param(0) whose data field has
+// Param(1) octets: while the payload fits the 16-bit length field it survives the round trip, beyond that
+// Encode returns an error and never a wrapped length.
+func HBigCodec() {
+	kind, n := vr.Param(0), vr.Param(1)
+	VBigLen = n
+	p := VGenPayload(kind, 9)
+	m := &IKEMessage{IKEHeader: VGenHeader(), Payloads: IKEPayloadContainer{p}}
+	body, berr := p.Marshal()
+	b, err := m.Encode()
+	if berr != nil || len(body)+4 > 65535 {
+		vr.Assert("c03.big.oversize-is-an-error", err != nil)
+		return
+	}
+	vr.Assert("c03.big.encode.noerr", err == nil)
+	if err != nil {
+		return
+	}
+	vr.Assert("c03.big.length-field", len(b) == 28+4+len(body) && int(b[30])<<8|int(b[31]) == 4+len(body))
+	d := new(IKEMessage)
+	err = d.Decode(b)
+	vr.Assert("c03.big.decode.noerr", err == nil)
+	if err != nil {
+		return
+	}
+	vr.Assert("c03.big.equal", len(d.Payloads) == 1 && VEqPayload(p, d.Payloads[0]))
+}
